@@ -87,6 +87,26 @@ def structural(rng, viol, evals):
         got = run_once(nested, seed)
         if got != [i for i in range(k) if alw[i]]:
             bad('Compose:skipped', case, got, [i for i in range(k) if alw[i]])
+        # ... at every nesting depth: the leaves wrapped in 1..4 operators of random kinds
+        depth = rng.randint(1, 4)
+        kinds = [rng.choice(['Sequential', 'OneOf', 'SomeOf', 'OneOrOther', 'Compose']) for _ in range(depth)]
+        case = {'op': 'Compose(p=0)-nested', 'ps': [0.5] * k, 'always': alw, 'wrappers': kinds, 'seed': seed}
+        inner = leaves([0.5] * k, alw)      # the leaves' own p is irrelevant under a skipped Compose
+        node = inner
+        for kd in kinds:
+            if kd == 'OneOrOther':
+                node = [A.OneOrOther(transforms=(node if len(node) == 2 else [A.Sequential(node, p=0.5), Rec(ident=99, p=0.5)]), p=0.5)]
+            elif kd == 'SomeOf':
+                node = [A.SomeOf(node, n=1, p=0.5)]
+            elif kd == 'OneOf':
+                node = [A.OneOf(node, p=0.5)]
+            elif kd == 'Compose':
+                node = [A.Compose(node, p=0.5)]
+            else:
+                node = [A.Sequential(node, p=0.5)]
+        got = run_once(A.Compose([Rec(ident=50, p=1.0, always_apply=True)] + node, p=0.0), seed)
+        if got != [50] + [i for i in range(k) if alw[i]]:
+            bad('Compose:skipped-nested', case, got, [50] + [i for i in range(k) if alw[i]])
         # forced application through a nested operator: OneOf -> OneOf -> leaf with p tiny but > 0
         case = {'op': 'OneOf(OneOf)', 'seed': seed}
         got = run_once(A.Compose([A.OneOf([A.OneOf([Rec(ident=7, p=1e-9)], p=1e-9)], p=1.0)]), seed)
